@@ -141,7 +141,9 @@ pub fn plan_for(prop: &str, tier: Tier) -> Option<PropPlan> {
             bound: format!("exhaustive for len<=2 on every Cloneable tracked configuration; proptest {} histories x <= {} ops", hc, ho),
             plans: vec![
                 Plan { shape: Shape::Step, groups: G_LAYOUT | G_BACKEND | G_CONSTRAINT, random: None, spec: spec("C09", ops(&[OP_LAZY, OP_SPLICE]), MON_CLONE | MON_MODEL | MON_OWN, 2) },
-                Plan { shape: Shape::History, groups: G_LAYOUT | G_BACKEND | G_CONSTRAINT, random: Some((hc, ho)), spec: spec("C09", ops(&[OP_LAZY, OP_PUSH, OP_INSERT, OP_REMOVE, OP_POP, OP_SPLICE]), MON_CLONE | MON_MODEL | MON_OWN, l) },
+                Plan { shape: Shape::History, groups: G_LAYOUT | G_BACKEND | G_CONSTRAINT, random: Some((hc, ho)), spec: spec("C09", ops(&[OP_LAZY, OP_PUSH, OP_INSERT, OP_REMOVE, OP_POP, OP_SPLICE, OP_CLONE, OP_CLONE_EMPTY, OP_DRAIN]), MON_CLONE | MON_MODEL | MON_OWN, l) },
+                // lazy clones whose source or destination is a freshly cloned / clone_empty'd vector
+                Plan { shape: Shape::CloneThen, groups: G_CORE | G_CONSTRAINT, random: None, spec: spec("C09", ops(&[OP_LAZY, OP_PUSH]), MON_CLONE | MON_MODEL | MON_OWN, 2) },
             ],
         }),
         "C10" => Some(PropPlan {
@@ -159,22 +161,22 @@ pub fn plan_for(prop: &str, tier: Tier) -> Option<PropPlan> {
             rule: "case = (generated Stack<SIZE> / StackN<N,SIZE> with SIZE and N on grids around multiples of the element size incl. N x size overflowing usize; construction, capacity formula, fill to capacity, refused push/insert beyond it, allocator window must stay empty) | (every C01/C02/C08 operation instance from every state up to capacity on stack-backed vectors: equality with the Vec model = behaviour of the heap backend, panic with contents unchanged beyond capacity, zero heap events); non-trivial = the case ends at or crosses the capacity boundary, or construction must panic; distinct = distinct (configuration, pick sequence)",
             bound: format!("294 generated (element, SIZE, N) grid points x fill levels; exhaustive one-step + clone-then-step for every state up to capacity on 9+ stack configurations; proptest {} histories x <= {} ops", hc, ho),
             plans: vec![
-                Plan { shape: Shape::Grid, groups: G_GRID, random: None, spec: spec("C11", 0, MON_MODEL | MON_NOALLOC | MON_CAP, 8) },
-                Plan { shape: Shape::Step, groups: G_STACK, random: None, spec: spec("C11", OPS_C01 | OPS_C02 | ops(&[OP_CLONE, OP_CLONE_EMPTY]), MON_MODEL | MON_NOALLOC | MON_CAP | MON_CLONE, 8) },
-                Plan { shape: Shape::CloneThen, groups: G_STACK, random: None, spec: spec("C11", OPS_C01, MON_MODEL | MON_NOALLOC | MON_CAP | MON_CLONE, 8) },
-                Plan { shape: Shape::History, groups: G_STACK, random: Some((hc, ho)), spec: spec("C11", OPS_C01 | OPS_C02 | ops(&[OP_CLONE, OP_CLONE_EMPTY, OP_DROP_NEW]), MON_MODEL | MON_NOALLOC | MON_CAP | MON_CLONE, 8) },
-                Plan { shape: Shape::Threshold, groups: G_STACK, random: None, spec: spec("C11", OPS_C01, MON_MODEL | MON_NOALLOC | MON_CAP, 8) },
+                Plan { shape: Shape::Grid, groups: G_GRID, random: None, spec: spec("C11", 0, MON_MODEL | MON_VALID | MON_NOALLOC | MON_CAP, 8) },
+                Plan { shape: Shape::Step, groups: G_STACK, random: None, spec: spec("C11", OPS_C01 | OPS_C02 | ops(&[OP_CLONE, OP_CLONE_EMPTY]), MON_MODEL | MON_VALID | MON_NOALLOC | MON_CAP | MON_CLONE, 8) },
+                Plan { shape: Shape::CloneThen, groups: G_STACK, random: None, spec: spec("C11", OPS_C01, MON_MODEL | MON_VALID | MON_NOALLOC | MON_CAP | MON_CLONE, 8) },
+                Plan { shape: Shape::History, groups: G_STACK, random: Some((hc, ho)), spec: spec("C11", OPS_C01 | OPS_C02 | ops(&[OP_CLONE, OP_CLONE_EMPTY, OP_DROP_NEW]), MON_MODEL | MON_VALID | MON_NOALLOC | MON_CAP | MON_CLONE, 8) },
+                Plan { shape: Shape::Threshold, groups: G_STACK, random: None, spec: spec("C11", OPS_C01, MON_MODEL | MON_VALID | MON_NOALLOC | MON_CAP, 8) },
             ],
         }),
         "C19" => Some(PropPlan {
             rule: "stack-backend slice of the C01/C02/C11 case space, identical in both feature sets (driven by probes/c19.py, which compares the per-configuration digests)",
             bound: format!("grid + exhaustive one-step and clone-then-step for every state up to capacity + proptest {} histories x <= {} ops on every stack configuration", hc, ho),
             plans: vec![
-                Plan { shape: Shape::Grid, groups: G_GRID, random: None, spec: spec("C19", 0, MON_MODEL | MON_NOALLOC | MON_CAP, 8) },
-                Plan { shape: Shape::Step, groups: G_STACK, random: None, spec: spec("C19", OPS_C01 | OPS_C02 | ops(&[OP_CLONE, OP_CLONE_EMPTY]), MON_MODEL | MON_NOALLOC | MON_CAP | MON_CLONE | MON_OWN, 8) },
-                Plan { shape: Shape::CloneThen, groups: G_STACK, random: None, spec: spec("C19", OPS_C01, MON_MODEL | MON_NOALLOC | MON_CAP | MON_CLONE | MON_OWN, 8) },
-                Plan { shape: Shape::History, groups: G_STACK, random: Some((hc, ho)), spec: spec("C19", OPS_C01 | OPS_C02 | ops(&[OP_CLONE, OP_CLONE_EMPTY, OP_DROP_NEW]), MON_MODEL | MON_NOALLOC | MON_CAP | MON_CLONE | MON_OWN, 8) },
-                Plan { shape: Shape::Threshold, groups: G_STACK, random: None, spec: spec("C19", OPS_C01, MON_MODEL | MON_NOALLOC | MON_CAP | MON_OWN, 8) },
+                Plan { shape: Shape::Grid, groups: G_GRID, random: None, spec: spec("C19", 0, MON_MODEL | MON_VALID | MON_NOALLOC | MON_CAP, 8) },
+                Plan { shape: Shape::Step, groups: G_STACK, random: None, spec: spec("C19", OPS_C01 | OPS_C02 | ops(&[OP_CLONE, OP_CLONE_EMPTY]), MON_MODEL | MON_VALID | MON_NOALLOC | MON_CAP | MON_CLONE | MON_OWN, 8) },
+                Plan { shape: Shape::CloneThen, groups: G_STACK, random: None, spec: spec("C19", OPS_C01, MON_MODEL | MON_VALID | MON_NOALLOC | MON_CAP | MON_CLONE | MON_OWN, 8) },
+                Plan { shape: Shape::History, groups: G_STACK, random: Some((hc, ho)), spec: spec("C19", OPS_C01 | OPS_C02 | ops(&[OP_CLONE, OP_CLONE_EMPTY, OP_DROP_NEW]), MON_MODEL | MON_VALID | MON_NOALLOC | MON_CAP | MON_CLONE | MON_OWN, 8) },
+                Plan { shape: Shape::Threshold, groups: G_STACK, random: None, spec: spec("C19", OPS_C01, MON_MODEL | MON_VALID | MON_NOALLOC | MON_CAP | MON_OWN, 8) },
             ],
         }),
         "C12" => Some(PropPlan {
